@@ -127,3 +127,9 @@ for _pid, _rule in [
     ('C22', 'same runs with MaxQueryConcurrency in {1,2,3,8}; gauge of in-progress query reads checked at every step, liveness of non-stalled queries checked in a fair fault-free phase; non-trivial = the gauge reached MaxQueryConcurrency'),
 ]:
     PROPS[_pid] = {'level': 'exploration', 'quick': [('cursor:general', 5000)], 'thorough': [('cursor:general', 250000)], 'rule': _rule, 'assumptions': CURSOR_ASSUME}
+
+# C23/C24 are also checked on every S-cursor query (faults, cancellation, stalled consumers, big blocks).
+for _pid in ('C23', 'C24'):
+    PROPS[_pid]['quick'] = [('content:general', 1000), ('cursor:general', 2500)]
+    PROPS[_pid]['thorough'] = [('content:general', 40000), ('cursor:general', 150000)]
+    PROPS[_pid]['rule'] += '; additionally every finished S-cursor query (store faults, cancellation, Close, stalled consumers, blocks of up to 300 rows)'
